@@ -431,6 +431,27 @@ pub fn gen_c06(out: &mut dyn Write, thorough: bool, seed: u64) {
                 }
             }
             writeln!(out, "H {CFG} {mt}^1{store} {ops},fill,obs:BKGIC,tspec:0 c06").unwrap();
+            // the sentence already has a tag table of ANOTHER width when the tags are filled: set by hand (`reset_tags(k)`, k below,
+            // equal to and above the model's number of categories), or brought along by annotated input (tokenized text with tags)
+            if r.chance(1, 5) {
+                let k = r.below(7);
+                writeln!(out, "H {CFG} {mt}^1{store} Fraw:{},pred:0,reset:{k},fill,obs:BKGIC,tspec:0 c06", hexs(&text)).unwrap();
+                let mut tok = String::new();
+                for (j, c) in text.chars().enumerate() {
+                    if j > 0 && r.chance(1, 3) {
+                        for t in 0..r.below(6) {
+                            tok.push_str(&format!("/t{t}"));
+                        }
+                        tok.push(' ');
+                    }
+                    if matches!(c, ' ' | '/' | '\\') {
+                        tok.push('\\');
+                    }
+                    tok.push(c);
+                }
+                tok.push_str("/x/y/z/w/v");
+                writeln!(out, "H {CFG} {mt}^1{store} Ftok:{},pred:0,fill,obs:BKGIC,tspec:0 c06", hexs(&tok)).unwrap();
+            }
             // tags filled, boundaries moved (what a filter does), tags filled again: the second fill must see the new tokens
             if n > 1 && r.chance(1, 3) {
                 let mut ops2 = format!("Fraw:{},pred:0,fill", hexs(&text));
